@@ -68,11 +68,15 @@ SessPacketPlain(S, seq4, msg, key1) ==
 \* its choice of sequence numbers (the library happens to use 1 throughout); a BMC is not, so the simulated BMC takes the
 \* byte from the request as it received it: message byte 5 of the null-session datagram, or of the decrypted payload
 ReqPlain0 == AesDec(Ref("K2"), Slice(Req, 16, 32), SliceDyn(Req, 32, Slice(Req, 14, 16), 16))
-EchoN == Slice(Req, 20, 21)
+\* (the two terms live once in a script file's shared definitions; replies refer to them by name)
+EchoNTerm == Slice(Req, 20, 21)
+EchoN == Ref("EchoN")
 \* (a request that arrives in the null session although a session exists is answered as what it is: the byte is then
 \* where a null-session message has it)
-EchoS == [op |-> "lookup", key |-> Slice(Req, 5, 6), table |-> [kk \in {"00"} |-> EchoN], default |-> Slice(ReqPlain0, 4, 5)]
-EchoWith(k2) == [op |-> "lookup", key |-> Slice(Req, 5, 6), table |-> [kk \in {"00"} |-> EchoN],
+EchoSTerm == [op |-> "lookup", key |-> Slice(Req, 5, 6), table |-> [kk \in {"00"} |-> EchoNTerm], default |-> Slice(ReqPlain0, 4, 5)]
+EchoS == Ref("EchoS")
+EchoDefs == [EchoS |-> EchoSTerm, EchoN |-> EchoNTerm]
+EchoWith(k2) == [op |-> "lookup", key |-> Slice(Req, 5, 6), table |-> [kk \in {"00"} |-> EchoNTerm],
                  default |-> Slice(AesDec(k2, Slice(Req, 16, 32), SliceDyn(Req, 32, Slice(Req, 14, 16), 16)), 4, 5)]
 MsgRspE(echo, netfnRsp, rsLun, cmd, cc, body) ==
   LET h1 == <<129, netfnRsp * 4>>
@@ -95,7 +99,7 @@ ReqAuthOk(S) == Eq(Slice(Req, 0 - S.integLen, -1),
                    Trunc(Hmac(S.integAlg, Ref("K1"), Slice(Req, 4, 0 - S.integLen)), S.integLen))
 \* decrypted payload of the request: IV = req[16:32], ciphertext = req[32 : 16+len]
 ReqPlain(S) == ReqPlain0
-SessionDefs(S) == [SIK |-> SIK(S), K1 |-> K1(S), K2 |-> K2(S)]
+SessionDefs(S) == [SIK |-> SIK(S), K1 |-> K1(S), K2 |-> K2(S), EchoS |-> EchoSTerm, EchoN |-> EchoNTerm]
 SessionRecipes(S) == [authOK |-> ReqAuthOk(S), plain |-> ReqPlain(S)]
 
 React0 == [k |-> "react", captures |-> <<>>, checks |-> <<>>, datagrams |-> <<>>, fail |-> "none"]
